@@ -1,16 +1,184 @@
 //! C12 — Pinocchio fast path ≡ Anchor implementation.
 //! Function-level part: `c12_fn` (usable-tick lookup, memory-mapped views, modify-liquidity differential).
-//! The instruction-level differential on explored ledger states is added here by the main agent.
+//! Instruction-level part (here): explicit-state search over W-std worlds; every increase/decrease transition (v1 and v2,
+//! fixed and dynamic tick arrays, SPL and Token-2022 mints) is executed from the same pre-state through the Pinocchio handler
+//! (what entrypoint.rs routes to) and through the Anchor handler that still exists: identical result, post-ledger bytes
+//! (all accounts incl. tick-array lengths and lamports), events; failing variants in every state; routing conformance of
+//! the harness's dispatch against the program's real `entrypoint` symbol for every instruction discriminator.
 use super::c12_fn;
+use crate::liqhandlers::{self, DiffStats};
+use crate::ops::{self, Lim, Op, Part, Stepped};
+use crate::poolexplore::{self, PoolModel};
 use crate::report::{Ctx, Report};
-use serde_json::Value;
+use crate::stdworlds::{self, Built};
+use crate::world::{self, Enc, StdWorld};
+use serde_json::{json, Value};
+use std::sync::Mutex;
+use svm::Ledger;
+
+fn worlds(thorough: bool) -> Vec<Built> {
+    let roots = stdworlds::std_roots();
+    let mut v = vec![stdworlds::build_with_roots(&stdworlds::std_spec("c12-std-dfd", [Enc::Dynamic, Enc::Fixed, Enc::Dynamic], 3000, 300), &roots)];
+    if thorough {
+        v.push(stdworlds::build_with_roots(&stdworlds::std_spec("c12-std-fdf", [Enc::Fixed, Enc::Dynamic, Enc::Fixed], 100, 2500), &roots[..4]));
+        v.push(stdworlds::build_with_roots(&stdworlds::t22_spec("c12-t22", 100, 5_000, 5_000, u64::MAX), &roots[..3]));
+        let ts1_roots: Vec<(&'static str, Vec<Op>)> = vec![
+            ("fresh", vec![]),
+            ("funded", vec![Op::Inc { pos: 0, liq: stdworlds::BIG * 1000, v2: false }, Op::Inc { pos: 1, liq: stdworlds::BIG * 100, v2: true }, Op::Inc { pos: 2, liq: stdworlds::BIG * 100, v2: true }]),
+        ];
+        v.push(stdworlds::build_with_roots(&stdworlds::ts1_spec("c12-ts1"), &ts1_roots));
+    }
+    v
+}
+
+fn alphabet(b: &Built) -> Vec<Op> {
+    let n = b.w.positions.len() as u8;
+    let mut a = vec![];
+    for pos in 0..n {
+        a.push(Op::Inc { pos, liq: stdworlds::BIG, v2: false });
+        a.push(Op::Inc { pos, liq: 12_345, v2: true });
+        a.push(Op::Dec { pos, part: Part::All, v2: true });
+        a.push(Op::Dec { pos, part: Part::Half, v2: false });
+    }
+    for a_to_b in [true, false] {
+        a.push(Op::Swap { a_to_b, exact_in: true, amount: u64::MAX >> 8, lim: Lim::NextTick, v2: a_to_b });
+        a.push(Op::Swap { a_to_b, exact_in: true, amount: 3_000_000, lim: Lim::None, v2: !a_to_b });
+    }
+    a.push(Op::Clock(1));
+    a
+}
+
+fn model<'a>(b: &'a Built, stats: &'a Mutex<DiffStats>, edge: &'a Mutex<DiffStats>) -> PoolModel<'a> {
+    PoolModel::new(
+        &b.w,
+        alphabet(b),
+        Box::new(move |l: &Ledger, w: &StdWorld| {
+            let mut local = DiffStats::default();
+            for ix in liqhandlers::edge_variants(l, w) {
+                liqhandlers::pino_vs_anchor(l, &ix, &mut local).map_err(|e| format!("edge variant {:?}...: {e}", &ix.data[..ix.data.len().min(12)]))?;
+            }
+            let mut g = edge.lock().unwrap();
+            g.both_ok += local.both_ok;
+            g.both_failed += local.both_failed;
+            g.same_code += local.same_code;
+            Ok(())
+        }),
+        Box::new(move |pre: &Ledger, st: &Stepped, _w: &StdWorld, op: &Op| match op {
+            Op::Inc { .. } | Op::Dec { .. } => {
+                let mut local = DiffStats::default();
+                let res = liqhandlers::pino_vs_anchor(pre, st.ix.as_ref().unwrap(), &mut local);
+                let mut g = stats.lock().unwrap();
+                g.both_ok += local.both_ok;
+                g.both_failed += local.both_failed;
+                g.same_code += local.same_code;
+                g.dynamic_resizes += local.dynamic_resizes;
+                res
+            }
+            _ => Ok(()),
+        }),
+    )
+}
+
+/// The harness replicates entrypoint.rs's dispatch so that panics can be caught; this checks the replica against the
+/// program's real `entrypoint` symbol for every instruction discriminator (and unknown ones). With zero accounts neither path
+/// can panic: both fail on the first account fetch. The paths are told apart by the log: the Anchor dispatcher logs
+/// "Instruction: <Name>" before account validation, the Pinocchio branch logs nothing.
+fn routing_conformance(r: &mut Report) {
+    let names = instruction_discriminators();
+    let mut pino = 0u64;
+    let mut anchor = 0u64;
+    let mut l = world::base_ledger();
+    svm::set_capture_logs(true);
+    for (name, disc) in &names {
+        let mut data = disc.clone();
+        data.extend_from_slice(&[0u8; 64]);
+        let ix = world::ix(vec![], data.clone());
+        let o = svm::process_routed(&mut l, &ix, svm::Route::RealEntrypoint);
+        // the Anchor dispatcher always logs (instruction name, or the fallback-not-found error); the Pinocchio branch never does
+        let logged = !o.logs.is_empty();
+        let expect_pino = svm::routes_to_pinocchio(&data);
+        if logged == expect_pino {
+            r.violation(
+                format!("routing/{name}"),
+                format!("entrypoint routes {name} to the {} path but the harness replica to the other (logs: {:?})", if logged { "Anchor" } else { "Pinocchio" }, o.logs),
+                json!({"kind":"routing","name":name}),
+            );
+        }
+        if o.ok() {
+            r.violation(format!("routing-ok/{name}"), format!("{name} with zero accounts succeeded"), json!({"kind":"routing","name":name}));
+        }
+        if expect_pino {
+            pino += 1;
+        } else {
+            anchor += 1;
+        }
+    }
+    svm::set_capture_logs(false);
+    r.set("routing_discriminators_checked", names.len() as u64);
+    r.set("routing_pinocchio", pino);
+    r.set("routing_anchor", anchor);
+    r.guard("routing_pinocchio_instructions", pino);
+    r.guard("routing_anchor_instructions", anchor);
+}
+
+/// (name, 8-byte discriminator) of every instruction of the program, taken from the program's own generated types.
+pub fn instruction_discriminators() -> Vec<(String, Vec<u8>)> {
+    use anchor_lang::Discriminator;
+    use whirlpool::instruction as wi;
+    macro_rules! d {
+        ($($t:ident),* $(,)?) => { vec![$((stringify!($t).to_string(), wi::$t::DISCRIMINATOR.to_vec())),*] };
+    }
+    let mut v = d!(
+        InitializeConfig, InitializePool, InitializeTickArray, InitializeDynamicTickArray, InitializeFeeTier, InitializeReward,
+        SetRewardEmissions, OpenPosition, OpenPositionWithMetadata, IncreaseLiquidity, DecreaseLiquidity, UpdateFeesAndRewards,
+        CollectFees, CollectReward, CollectProtocolFees, Swap, ClosePosition, SetDefaultFeeRate, SetDefaultProtocolFeeRate,
+        SetFeeRate, SetProtocolFeeRate, SetFeeAuthority, SetCollectProtocolFeesAuthority, SetRewardAuthority,
+        SetRewardAuthorityBySuperAuthority, SetRewardEmissionsSuperAuthority, TwoHopSwap, InitializePositionBundle,
+        InitializePositionBundleWithMetadata, DeletePositionBundle, OpenBundledPosition, CloseBundledPosition,
+        OpenPositionWithTokenExtensions, ClosePositionWithTokenExtensions, LockPosition, ResetPositionRange,
+        TransferLockedPosition, InitializeAdaptiveFeeTier, SetDefaultBaseFeeRate, SetDelegatedFeeAuthority,
+        SetInitializePoolAuthority, SetPresetAdaptiveFeeConstants, InitializePoolWithAdaptiveFee,
+        SetFeeRateByDelegatedFeeAuthority, SetAdaptiveFeeConstants, SetConfigFeatureFlag, MigrateRepurposeRewardAuthoritySpace,
+        CollectFeesV2, CollectProtocolFeesV2, CollectRewardV2, DecreaseLiquidityV2, IncreaseLiquidityV2,
+        IncreaseLiquidityByTokenAmountsV2, InitializePoolV2, InitializeRewardV2, SetRewardEmissionsV2, SwapV2, TwoHopSwapV2,
+        RepositionLiquidityV2, InitializeConfigExtension, SetConfigExtensionAuthority, SetTokenBadgeAuthority,
+        InitializeTokenBadge, DeleteTokenBadge, SetTokenBadgeAttribute, IdlInclude,
+    );
+    v.push(("Unknown".into(), vec![1, 2, 3, 4, 5, 6, 7, 8]));
+    v.push(("Empty".into(), vec![]));
+    v
+}
 
 pub fn run(ctx: &Ctx) -> Report {
-    let mut r = Report::new("C12", "exploration");
+    let mut r = Report::new("C12", "model_checking");
     c12_fn::run_fn(ctx, &mut r);
     let rule = r.coverage.get("fn_rule").cloned().unwrap_or(Value::Null);
     r.set("rule", rule);
+    routing_conformance(&mut r);
+    if r.violations.is_empty() {
+        let ws = worlds(!ctx.tier.is_quick());
+        let share = ctx.left() * 0.9 / ws.len() as f64;
+        let stats = Mutex::new(DiffStats::default());
+        let edge = Mutex::new(DiffStats::default());
+        for b in &ws {
+            let m = model(b, &stats, &edge);
+            let out = poolexplore::run_world(ctx, &mut r, b, &m, ctx.pick(3, 5), share);
+            poolexplore::fold(&mut r, &b.name, &out, &m.alphabet[..3]);
+            if !r.violations.is_empty() {
+                break;
+            }
+        }
+        let s = stats.lock().unwrap().clone();
+        let e = edge.lock().unwrap().clone();
+        r.set("handler_differentials_both_succeeded", s.both_ok);
+        r.set("handler_differentials_both_failed", s.both_failed + e.both_failed);
+        r.set("edge_variant_differentials", e.both_ok + e.both_failed);
+        r.guard("handler_differentials_both_succeeded", s.both_ok);
+        r.guard("edge_variants_failing_with_same_program_error", e.same_code);
+        r.guard("dynamic_tick_array_resizes_compared", s.dynamic_resizes);
+    }
     r.set("exhaustive", false);
+    r.assume("svm-lite faithfully replaces the validator (DESIGN §2.1); 'same error' = same program error code whenever both handlers return one");
     r
 }
 
@@ -18,5 +186,25 @@ pub fn replay(case: &Value) -> Result<(), String> {
     if let Some(res) = c12_fn::replay_fn(case) {
         return res;
     }
-    Err("bad case".into())
+    match case["kind"].as_str() {
+        Some("ops") => {
+            let ws = worlds(true);
+            let name = case["world"].as_str().ok_or("world")?;
+            let b = ws.iter().find(|b| b.name == name).ok_or("unknown world")?;
+            let stats = Mutex::new(DiffStats::default());
+            let edge = Mutex::new(DiffStats::default());
+            let m = model(b, &stats, &edge);
+            poolexplore::replay_ops(b, &m, case["root"].as_str().ok_or("root")?, &case["ops"])
+        }
+        Some("routing") => {
+            let mut r = Report::new("C12", "model_checking");
+            routing_conformance(&mut r);
+            let name = case["name"].as_str().unwrap_or("");
+            match r.violations.iter().find(|v| v.key.ends_with(&format!("/{name}"))) {
+                Some(v) => Err(v.detail.clone()),
+                None => Ok(()),
+            }
+        }
+        _ => Err("bad case".into()),
+    }
 }
